@@ -21,6 +21,7 @@ with real RuleMgr / EndpointsMgr and the real treadmill.iptables ip-set
 functions running over a fake `subproc` that interprets the `ipset` command
 line on Python sets (`-exist` makes add/del idempotent, as in the kernel).
 """
+from mc import modstate  # noqa: E402
 import collections
 import copy
 import errno
@@ -616,6 +617,7 @@ class Host:
 
     def __init__(self, port_order='identity', prebound=True, foreign=True):
         install()
+        modstate.reset()    # module-level memos do not leak between cases
         self.dir = fresh_dir()
         self.apps_dir = os.path.join(self.dir, 'apps')
         self.rules_dir = os.path.join(self.dir, 'rules')
